@@ -6,6 +6,28 @@ import os
 ROOT = os.path.dirname(os.path.dirname(os.path.abspath(__file__)))
 
 CHECKS = {
+    "C07": dict(
+        cat="model_checking", engine="Layers",
+        text="spec/Layers.tla states the overlay semantics (TopmostWins), MissingParentRejected and FirstCandidateUsed and TLC checks a "
+             "recursive read-through-the-chain against them for all chains up to depth 3; Vhdx.tla differencing images and "
+             "VhdxPartial.tla (transcription of the bitmap fetch and _iter_partial_runs) cover partially-present blocks. Every "
+             "enumerated chain is realised for VDI, QCOW2 (std/ext L2), HDS, Parallels HDD (on disk), VMDK descriptor+delta (on disk) "
+             "and VHDX differencing (on disk) and replayed; random real-geometry chains (per-sector / per-sub-cluster bitmaps) are "
+             "trace-validated by TLC (TraceDisk!ChainSrc); QCOW2 internal snapshots and all parent-resolution configurations are replayed.",
+        note="trusts TLC, the encoders and the pattern codec; VHDX base layers are block-granular; chain depth <= 4",
+        technique="TLA+ spec + TLC exhaustive enumeration of chains, replay into real layered readers, TLC trace validation",
+        design="5/C07"),
+    "C08": dict(
+        cat="model_checking", engine="Stream",
+        text="spec/Stream.tla models the buffered layer over an abstract back-end contract and TLC checks ReadCorrect / PosAdvance / "
+             "BufCoherent for every history up to depth 3-4 (and by simulation to depth 40); simulated histories are replayed on all six "
+             "stream classes over TLC-enumerated images with the buffer below/at/above the allocation unit; long random histories on "
+             "cache-overflowing images at five buffer sizes are recorded from the real objects and validated by TLC (TraceDisk); the "
+             "back-end calls are checked against the contract; DISSECT_STREAM_BUFFER_SIZE is exercised in subprocesses.",
+        note="trusts TLC, encoders, pattern codec; AlignedStream is an external dependency that is modelled and observed, not repaired; "
+             "VHDX > 4096-entry BAT cache overflow is compared in Python (byte offsets exceed TLC integers)",
+        technique="TLA+ spec of the buffered stream + TLC exhaustive/simulated histories replayed into the readers + TLC trace validation",
+        design="5/C08"),
     "C01": dict(
         cat="model_checking", engine="Qcow2",
         text="spec/Qcow2.tla defines the QCOW2 guest view from qcow2.txt; TLC checks an implementation-shaped transcription of the "
